@@ -104,21 +104,22 @@ Qed.
 
 (* import_replaces: vnaproperty_import_yaml_from_file / _from_string, for every old content of the
    destination and everything the YAML parser can deliver: the outcome is the specification's, which for
-   a document is the import into the EMPTY document - nothing of the old tree survives, whether the import
-   succeeds or stops half way - and for a syntax error / empty document is the untouched destination *)
+   a document that imports is the import into the EMPTY document - nothing of the old tree survives - and
+   for a syntax error / empty document / a document whose import fails is the untouched destination (DO90) *)
 Theorem import_replaces (l : yload) (root : node) :
   abs_res (import_public l root) = d_import_public l (abs root).
 Proof.
   destruct l as [| | y]; try reflexivity.
-  unfold import_public, import_document, d_import_public. rewrite vdelete_dot. cbn [fst].
-  symmetry. exact (sim_yaml_import y NNull).
+  unfold import_public, import_document, d_import_public.
+  change DNull with (abs NNull). rewrite (sim_yaml_import y NNull). unfold abs_res.
+  destruct (yaml_import y NNull) as [r ok]. cbn [fst snd]. destruct ok; reflexivity.
 Qed.
 
 (* the null document (plain ~, null, Null, NULL - what export writes for a NULL tree) clears the destination *)
 Theorem import_null_document_clears (root : node) (v : bytes) :
   is_yaml_null v = true -> import_public (YDocument (YScalar v YPlain)) root = (NNull, true).
 Proof.
-  intros H. unfold import_public, import_document. rewrite vdelete_dot. cbn [fst yaml_import is_plain].
+  intros H. unfold import_public, import_document. cbn [yaml_import is_plain].
   now rewrite H.
 Qed.
 
@@ -138,8 +139,9 @@ Proof.
 Qed.
 
 (* computed: old content { old: [1] }; (a) the null document, (b) a mapping whose keys are descriptors
-   ("a.b", "l[1]") and merge, (c) a mapping whose second key is not a descriptor: the import fails, the
-   first pair stays, the old content is gone, (d) a syntax error: nothing changes *)
+   ("a.b", "l[1]") and merge, (c) a mapping whose second key is not a descriptor: the import fails and
+   the old content is still there (before DO90: the first pair, the old content gone), (d) a syntax
+   error: nothing changes *)
 Definition old_tree : node := NMap [([111; 108; 100], NList [NScalar [49]] 8)]%N.
 Example import_replaces_examples :
   import_public (YDocument (YScalar [126]%N YPlain)) old_tree = (NNull, true) /\
@@ -151,7 +153,7 @@ Example import_replaces_examples :
   import_public (YDocument (YMapping [(YScalar [97]%N YPlain, YScalar [49]%N YPlain);
                                       (YScalar [91]%N YDouble, YScalar [50]%N YPlain);
                                       (YScalar [98]%N YPlain, YScalar [51]%N YPlain)])) old_tree
-  = (NMap [([97]%N, NScalar [49]%N)], false) /\
+  = (old_tree, false) /\
   import_public YSyntaxError old_tree = (old_tree, false) /\
   import_public YEmptyDocument old_tree = (old_tree, false).
 Proof. vm_compute. repeat split; reflexivity. Qed.
